@@ -36,6 +36,9 @@ def liftS {α : Type} (f : St → St × Outcome α) (t : TS) : TS × Outcome α 
 /-- `ptr::write(p, v)` -/
 def write (p : Nat) (v : Val) (t : TS) : TS × Outcome Unit := ({ t with wr := t.wr ++ [(p, v)] }, .ok ())
 
+/-- reading a typed value back: what the last `ptr::write` to that address stored -/
+def read_val (p : Nat) (t : TS) : Option Val := (t.wr.reverse.find? (fun x => x.1 == p)).map (·.2)
+
 /-- calling a closure: the call is logged, then the closure runs -/
 def call (f : Clo) (i : Nat) (t : TS) : TS × Outcome Val := f i { t with calls := t.calls ++ [i] }
 
